@@ -56,7 +56,7 @@ def run(chk, S: Session):
     chk.trust("jacfwd/jacrev: output axes then input axes", "linearize / vjp closures", "np.mean(axis=0)")
     r1 = chk.rule("R-C17-1", "block layout of the three reductions for all handlers (n_in != n_out != d); siblings and consumers agree", floor=20)
     r2 = chk.rule("R-C17-2", "Monte-Carlo estimators: mean over the probe axis of probe x (J probe) / (J^T probe) x probe, same probe array, un-probed function value", floor=12)
-    r3 = chk.rule("R-C17-3", "key discipline: split, draw with the sub-key, return the other half", floor=4)
+    r3 = chk.rule("R-C17-3", "key discipline: split, draw with the sub-key, return the other half; every solver step threads the returned state into the next call", floor=12)
     handlers = [c.name for c in S.p.subclasses(JAC + ".Jacobian")]
     if len(handlers) < 3:
         raise AnalysisError("expected >= 3 Jacobian handlers")
@@ -122,6 +122,11 @@ def run(chk, S: Session):
                 r3.require(st is state, f"{cls}.{meth} state", "state passed through", f"{T.show(st, 2)}", JAC, cfg)
             if len(chk.samples) < 6:
                 chk.sample({"config": cfg, "fx": sf, "J": sj})
+    # seen from the solver: each step hands the constraint state (the key) on -- first linearisation from state.auxiliary, later ones from
+    # the previous call's returned state, and the last returned state is what the step stores
+    from .c02 import linearisation_threading
+    for construct, ok, detail, where, cfg in linearisation_threading(S):
+        r3.require(ok, construct, detail, f"constraint state not threaded: {detail}", where, cfg)
     # consumers: the isotropic / block-diagonal residual linearisations contract the block with the mean in the handler's layout
     from .c11 import _rfun_list, consumer_shapes, mk_res, strip_layout
     from ..harness import mcalls
